@@ -58,6 +58,24 @@ css cMargin(v string) {
 	width: 1px;
 }
 
+css cFontSafe(v templ.SafeCSSProperty) {
+	color: red;
+	font-family: { v };
+	width: 1px;
+}
+
+css cBgSafe(v templ.SafeCSSProperty) {
+	color: red;
+	background-image: { v };
+	width: 1px;
+}
+
+css cColorSafe(v templ.SafeCSSProperty) {
+	color: red;
+	background-color: { v };
+	width: 1px;
+}
+
 css canary() {
 	color: green;
 }
@@ -151,6 +169,22 @@ func build(k, p, v string) templ.Component {
 		return Attr1(map[string]string{"a-a": "b", p: v, "z-z": "d"})
 	case "attr:safemap":
 		return Attr3(a, map[string]templ.SafeCSSProperty{p: "red"}, z)
+	case "attr:kv-safeprop":
+		return Attr3(a, templ.KV(p, templ.SafeCSSProperty("red")), z)
+	case "attr:kvslice-safeprop":
+		return Attr1([]any{a, templ.KV(p, templ.SafeCSSProperty("red")), z})
+	// history sinks: the same text is first given to the css component as a
+	// trusted templ.SafeCSSProperty (that class is built, not rendered), then
+	// the ordinary string component is rendered and judged
+	case "css-history:font-family":
+		_ = cFontSafe(templ.SafeCSSProperty(v))
+		return CFont(v)
+	case "css-history:background-image":
+		_ = cBgSafe(templ.SafeCSSProperty(v))
+		return CBg(v)
+	case "css-history:background-color":
+		_ = cColorSafe(templ.SafeCSSProperty(v))
+		return CColor(v)
 	}
 	return nil
 }
@@ -193,10 +227,25 @@ type sink struct {
 var cssSinks = []sink{{"css:font-family", "font-family", "cFont_"}, {"css:background-image", "background-image", "cBg_"}, {"css:display", "display", "cDisplay_"},
 	{"css:background-color", "background-color", "cColor_"}, {"css:padding", "padding", "cPadding_"}, {"css:margin", "margin", "cMargin_"}}
 
-var attrSinks = []sink{{name: "attr:map"}, {name: "attr:kv"}, {name: "attr:slice"}, {name: "attr:kvslice"}, {name: "attr:func"}, {name: "attr:funcerr"}, {name: "attr:mapdirect"}, {name: "attr:safemap"}}
+var attrSinks = []sink{{name: "attr:map"}, {name: "attr:kv"}, {name: "attr:slice"}, {name: "attr:kvslice"}, {name: "attr:func"}, {name: "attr:funcerr"}, {name: "attr:mapdirect"}, {name: "attr:safemap"},
+	{name: "attr:kv-safeprop"}, {name: "attr:kvslice-safeprop"}}
+
+// histSinks render in their own driver process (cold caches): see the driver.
+var histSinks = []sink{{"css-history:font-family", "font-family", "cFont_"}, {"css-history:background-image", "background-image", "cBg_"}, {"css-history:background-color", "background-color", "cColor_"}}
+
+// nameOnly: sinks whose value is a trusted templ.SafeCSSProperty (kept benign:
+// "red"); only the property NAME is dynamic and untrusted.
+func nameOnly(s sink) bool {
+	return s.name == "attr:safemap" || s.name == "attr:kv-safeprop" || s.name == "attr:kvslice-safeprop"
+}
+
+// unsupportedMarker is what the runtime writes for a style value of a type it
+// does not handle (templ.KeyValue[string, templ.SafeCSSProperty] on the pinned
+// tree): a fixed declaration, which is as harmless as the innocuous name.
+const unsupportedMarker = "zTemplUnsupportedStyleAttributeValue"
 
 func sinkByName(n string) (sink, bool) {
-	for _, s := range append(append([]sink{}, cssSinks...), attrSinks...) {
+	for _, s := range append(append(append([]sink{}, cssSinks...), attrSinks...), histSinks...) {
 		if s.name == n {
 			return s, true
 		}
@@ -315,7 +364,11 @@ func judgeRendered(j rjob, out []byte) (cl Clause, css string) {
 		cl |= HTML
 	}
 	css = d.Attrs[1].Val
-	segs := []Seg{sent("color", "red"), {Names: namesFor(j.p)}, sent("width", "1px")}
+	names := namesFor(j.p)
+	if nameOnly(j.sk) {
+		names = append(names, unsupportedMarker)
+	}
+	segs := []Seg{sent("color", "red"), {Names: names}, sent("width", "1px")}
 	unordered := false
 	if j.sk.name == "attr:mapdirect" {
 		// three entries of ONE map: the property does not speak about the order
@@ -332,7 +385,7 @@ func sanitiserClean(j rjob) bool {
 	if j.sk.prop != "" {
 		p = j.sk.prop
 	}
-	if j.sk.name == "attr:safemap" {
+	if nameOnly(j.sk) {
 		v = "red"
 	}
 	cl, _ := verdictSanitiser(p, v)
@@ -397,7 +450,21 @@ func renderValues(c *core.Ctx, prop string, n int) []string {
 	if len(rej) > n/8 {
 		rej = rej[:n/8]
 	}
-	return append(acc, rej...)
+	out := append(acc, rej...)
+	// long accepted values (truncation, buffers), never thinned out
+	for _, n := range []int{1023, 1024, 1025, 1026, 2048, 4097} {
+		for _, sh := range longShapes {
+			for _, u := range []string{"a", "é"} {
+				if v := longValue(sh, u, n); !seen[v] {
+					seen[v] = true
+					if _, o := safehtml.SanitizeCSS(prop, v); o != innocuousValue {
+						out = append(out, v)
+					}
+				}
+			}
+		}
+	}
+	return out
 }
 
 func rendered(c *core.Ctx, b *bag) {
@@ -423,9 +490,21 @@ func rendered(c *core.Ctx, b *bag) {
 	}
 	hostileNames := append([]string{"COLOR", "Font-Family", "--x", "zzz-unlisted"}, invalidNames...)
 	for _, sk := range attrSinks {
-		if sk.name == "attr:safemap" { // only the name is dynamic and untrusted
-			for _, p := range append(append([]string{}, regularProps...), hostileNames...) {
-				jobs = append(jobs, rjob{sk, p, "red"})
+		if nameOnly(sk) { // only the name is dynamic and untrusted
+			seen := map[string]bool{}
+			add := func(p string) {
+				if !seen[p] {
+					seen[p] = true
+					jobs = append(jobs, rjob{sk, p, "red"})
+				}
+			}
+			for _, p := range append(append(append([]string{}, regularProps...), unlistedProps...), hostileNames...) {
+				add(p)
+			}
+			for _, st := range []stream{exhaustive(2), structured(1)} { // the adversarial alphabet and fragments as names
+				for part := 0; part < st.parts; part++ {
+					st.gen(part, add)
+				}
 			}
 			continue
 		}
@@ -449,6 +528,40 @@ func rendered(c *core.Ctx, b *bag) {
 	res := e.run(c, jobs)
 	if res == nil {
 		return
+	}
+	// history sinks in a driver process of their own (anything the code under
+	// test remembers between calls starts cold), shortest hostile values first
+	{
+		seen := map[string]bool{}
+		var hv []string
+		for _, st := range []stream{exhaustive(2), structured(1)} {
+			for part := 0; part < st.parts; part++ {
+				st.gen(part, func(v string) {
+					if !seen[v] && nontrivial(v) {
+						seen[v] = true
+						hv = append(hv, v)
+					}
+				})
+			}
+		}
+		sort.SliceStable(hv, func(a, b int) bool { return len(hv[a]) < len(hv[b]) })
+		if m := c.Pick(1000, 3000); len(hv) > m {
+			hv = hv[:m]
+		}
+		var hj []rjob
+		for _, v := range hv {
+			for _, sk := range histSinks {
+				hj = append(hj, rjob{sk, sk.prop, v})
+			}
+		}
+		hres := e.run(c, hj)
+		for i := range hj {
+			if o, ok := hres[i]; ok {
+				res[len(jobs)+i] = o
+			}
+		}
+		jobs = append(jobs, hj...)
+		c.Set("rendered_history_sequences", len(hj))
 	}
 	if len(res) != len(jobs) {
 		c.Inconclusive(fmt.Sprintf("C05 driver answered %d of %d jobs", len(res), len(jobs)))
@@ -503,7 +616,7 @@ func rendered(c *core.Ctx, b *bag) {
 		}
 	}
 	c.Set("rendered_outputs", len(res))
-	c.Set("rendered_sinks", len(cssSinks)+len(attrSinks))
+	c.Set("rendered_sinks", len(cssSinks)+len(attrSinks)+len(histSinks))
 	c.Set("rendered_style_elements_parsed", seenStyle)
 	c.Set("rendered_style_attributes_parsed", seenAttr)
 	c.Set("rendered_violations_attributed_to_the_sanitiser", attributed)
@@ -534,6 +647,9 @@ func rendered(c *core.Ctx, b *bag) {
 // are rendered in one driver run; the first that still shows the clause while
 // the sanitiser's own output stays clean is taken.
 func (e *rpkg) shrink(c *core.Ctx, j rjob, bit Clause) string {
+	if len(j.v) > 300 { // long-value witnesses are reported as found (a round renders len(v) candidates)
+		return j.v
+	}
 	for round := 0; round < 300 && len(j.v) > 0; round++ {
 		var jobs []rjob
 		for i := 0; i < len(j.v); i++ {
